@@ -7,6 +7,11 @@ Protocol (one line per request, ASCII):
                                              t = CHText(*parts): str(t), t.plain_text(), strip_colors(str(t)) and t's
                                              own chunk list (fg = P: the part is a plain str, not a chunk)
   pfmt  <text>                               str(ColorFmt.get_plaintext_fmt()(text))
+  make  <n> (<fg> <bg> <eff> <nc> <text>)*n @ <value>
+                                             t = CHText.make([chunks]) (the other constructor; P = make_plain chunk)
+  first <entry> <text>                       the first call on a freshly imported copy of ak/color.py:
+                                             chunk-strip CHText.Chunk.strip_colors(text) | obj-strip fmt("q").strip_colors(text)
+                                             | cht-strip CHText.strip_colors(text) | plain-fmt get_plaintext_fmt()(text)
   seq   <n> entries                          several calls in ONE process, in order; entry =
                                              F <fg> <bg> <eff> <nc> <text>   f = ColorFmt(...); str(f(text))
                                              B <fg> <bg> <eff> <nc> <bytes>  ColorBytes(...)(bytes)
@@ -452,14 +457,15 @@ def _canon(text):
 
 
 def _own_chunks(x, pairs):
-    """the object's own state: its chunk list as (colour id, text) pairs; `u` = a chunk whose prefix/suffix
-    pair none of the line's formatters produced"""
+    """the object's own state: its chunk list as (colour id, text) pairs; `u=<prefix>=<suffix>` instead of an id
+    = a chunk whose prefix/suffix pair none of the line's formatters produced"""
     m = _mod()
     chunks = x.chunks if isinstance(x, m.CHText) else [x]
     out = []
     for c in chunks:
         pr = (c.c_prefix, c.c_suffix)
-        out.append("%s:%s" % (pairs.index(pr) if pr in pairs else "u", enc_str(_canon(c.text))))
+        cid = str(pairs.index(pr)) if pr in pairs else "u=%s=%s" % (enc_str(pr[0]), enc_str(pr[1]))
+        out.append("%s:%s" % (cid, enc_str(_canon(c.text))))
     return "/".join(out) or "_"
 
 
@@ -487,8 +493,7 @@ def _look(x, pairs=None):
     base = "%s %s %s" % (enc_str(_canon(s)), enc_str(_canon(x.plain_text())), enc_str(_canon(m.CHText.strip_colors(s))))
     if pairs is None:
         return base
-    own = _own_chunks(x, pairs)
-    return "foreign" if "u:" in own else base + " " + own
+    return base + " " + _own_chunks(x, pairs)
 
 
 def _run_seq(toks):
@@ -651,6 +656,10 @@ def _observe(op, toks):
     if op in ("cht", "chtm"):
         parts, pairs = _parts(toks)
         return [_look(m.CHText(*parts), pairs if own else None)]
+    if op == "make":                     # the other constructor: CHText.make([chunk, ...])
+        parts, pairs = _parts(toks)
+        chunks = [p if isinstance(p, m.CHText.Chunk) else m.CHText.Chunk.make_plain(p) for p in parts]
+        return [_look(m.CHText.make(chunks), pairs)]
     if op in ("hist", "histm"):
         return _run_hist(toks, own)
     return _run_ops(toks, own)
@@ -664,7 +673,7 @@ def attach(line):
     head = split_data(a)[0]
     try:
         looks = observe(op, head)
-        data = ["u" if l == "foreign" else l.split()[3] for l in looks]
+        data = [l.split()[3] for l in looks]
     except Exception as e:
         data = ["E:" + type(e).__name__]
     return " ".join([op] + head + ["@"] + data)
@@ -674,6 +683,44 @@ def twin(line):
     """the diagnostic twin of an observable line: the model evaluates the operations itself (as C08 does)"""
     op, *a = line.split()
     return " ".join([op + "m"] + split_data(a)[0])
+
+
+_FRESH = [0]
+
+
+def _fresh_color():
+    """a freshly imported copy of ak/color.py: nothing has been called on it yet (class-level lazily initialised
+    state such as CHText._SEQ_RE or ColorFmt._NO_COLOR is in its import-time state)"""
+    import importlib.util
+    import sys
+    from harness import core
+    _FRESH[0] += 1
+    name = "_c09_fresh_color_%d_%d" % (os.getpid(), _FRESH[0])
+    spec = importlib.util.spec_from_file_location(name, os.path.join(core.REPO, "ak", "color.py"))
+    mod = importlib.util.module_from_spec(spec)
+    sys.modules[name] = mod
+    try:
+        spec.loader.exec_module(mod)
+    finally:
+        sys.modules.pop(name, None)
+    return mod
+
+
+FIRST_ENTRIES = ["chunk-strip", "obj-strip", "cht-strip", "plain-fmt"]
+
+
+def _first_use(entry, text, mod=None):
+    """one public entry point called as the very first thing on the module"""
+    m = mod or _fresh_color()
+    if entry == "chunk-strip":
+        return m.CHText.Chunk.strip_colors(text)
+    if entry == "obj-strip":
+        return m.ColorFmt("RED")("q").strip_colors(text)
+    if entry == "cht-strip":
+        return m.CHText.strip_colors(text)
+    if entry == "plain-fmt":
+        return str(m.ColorFmt.get_plaintext_fmt()(text))
+    raise RuntimeError("bad first-use entry " + entry)
 
 
 def impl(case):
@@ -688,7 +735,9 @@ def impl(case):
             elif op == "bytes":
                 fg, kw = _kwargs(a)
                 out.append("ok " + enc_bytes(m.ColorBytes(fg, **kw)(dec_bytes(a[4]))))
-            elif op in ("cht", "hist", "ops", "chtm", "histm", "opsm"):
+            elif op == "first":
+                out.append("ok " + enc_str(_first_use(a[0], dec_str(a[1]))))
+            elif op in ("cht", "make", "hist", "ops", "chtm", "histm", "opsm"):
                 out.append("ok " + "|".join(observe(op, split_data(a)[0])))
             elif op == "pfmt":
                 out.append("ok " + enc_str(str(m.ColorFmt.get_plaintext_fmt()(dec_str(a[0])))))
@@ -864,7 +913,7 @@ def _check_shown(s, expect, what):
     if [c for c, _ in cells] != [c for c, _ in exp]:
         return "shown-text: %s: terminal shows %r" % (what, "".join(c for c, _ in cells))
     for k, ((c, got), (_, want)) in enumerate(zip(cells, exp)):
-        if got != want:
+        if want is not None and got != want:
             return "attributes: %s: character %d shown with %s, requested %s" % (
                 what, k, _show_state(got), _show_state(want))
     if fin != DEFAULT:
@@ -937,12 +986,14 @@ def _judge_own(look, states, what):
     should have produced is not C09's question): the terminal shows exactly the chunks' characters, each with the
     attributes requested from the chunk's formatter, it is in default state between two chunks and at the end, and
     strip_colors(str(x)) == plain_text() == the chunk texts"""
-    if look == "foreign":
-        return None                 # a chunk no formatter of this line produced: nothing is requested for it
     s, pl, stripped, own = look.split()
     s, pl, stripped = dec_str(s), dec_str(pl), dec_str(stripped)
-    chunks = [] if own == "_" else [(int(c.split(":")[0]), dec_str(c.split(":")[1])) for c in own.split("/")]
-    msg = _check_shown(s, [(text, states[cid]) for cid, text in chunks], what)
+    # a chunk no formatter of this line produced (u=...): no attributes are requested for its characters, but the
+    # string as a whole must still be well formed, self contained (default state between chunks and at the end)
+    # and strippable
+    chunks = [] if own == "_" else [(None if c.startswith("u=") else int(c.split(":")[0]), dec_str(c.split(":")[1]))
+                                    for c in own.split("/")]
+    msg = _check_shown(s, [(text, None if cid is None else states[cid]) for cid, text in chunks], what)
     if msg:
         return msg
     resets = []
@@ -1015,9 +1066,19 @@ def oracle(case, replies):
                     msg = _judge_call("fmt", entries[k][1:5] + [e[2]], "ok " + r[2:], "call %d: object of call %d again" % (j, k))
                     if msg:
                         return "in-sequence " + msg
-        elif op in ("cht", "hist", "ops"):
+        elif op == "first":
+            text = dec_str(a[1])
+            if not rep.startswith("ok "):
+                return "first-use: %s as the first call in a fresh process gives %s" % (a[0], rep)
+            got = dec_str(rep[3:])
+            warm = _first_use(a[0], text, m)         # the same call on the module that has been used for a while
+            if got != warm:
+                return "first-use: %s answers %r as the first call, %r later" % (a[0], got, warm)
+            if ESC not in text and got != text:
+                return "strip: text without escape characters changed: %r -> %r" % (text, got)
+        elif op in ("cht", "make", "hist", "ops"):
             head = split_data(a)[0]
-            if op == "cht":
+            if op in ("cht", "make"):
                 n = int(head[0])
                 states, verdicts = [DEFAULT], []
                 for i in range(n):
@@ -1047,7 +1108,7 @@ def oracle(case, replies):
             for j, look in enumerate(looks):
                 msg = _judge_own(look, states, "observation %d of %s" % (j, line[:200]))
                 if msg:
-                    return {"cht": "", "hist": "history ", "ops": "operations "}[op] + msg
+                    return {"cht": "", "make": "make ", "hist": "history ", "ops": "operations "}[op] + msg
         elif op == "pfmt":
             if rep != "ok " + a[0]:
                 return "nocolor-esc: the plain-text formatter turns %r into %s" % (dec_str(a[0]), rep)
@@ -1176,6 +1237,8 @@ def _case(line, kind):
         # the observable line carries the real object's own chunk list(s) as data; its twin, where the model
         # evaluates the operations itself, is compared as a diagnostic only
         return {"lines": [attach(line), twin(line)], "meta": {"kind": kind}}
+    if line.startswith("make "):
+        return {"lines": [attach(line)], "meta": {"kind": kind}}
     return {"lines": [line], "meta": {"kind": kind}}
 
 
@@ -1503,11 +1566,25 @@ def gen_cases(rng, tier):
                 fg, bg, eff = rng.choice(pool)
                 toks.append("%s %s" % (spec_tokens(fg, bg, eff, rand_nc(rng, 0.07)), enc_str(text)))
         yield _case("cht %d %s" % (n, " ".join(toks)) if n else "cht 0", "cht-malformed" if bad else "cht-%d" % min(n, 4))
+        if rng.random() < 0.5:
+            # the other constructor, CHText.make([chunks]): merges neighbours of the same type, keeps empty chunks
+            yield _case("make %d %s" % (n, " ".join(toks)) if n else "make 0", "make-malformed" if bad else "make-%d" % min(n, 4))
+    # --- first use: a public entry point called before anything else in a fresh copy of the module
+    for entry in FIRST_ENTRIES:
+        for text in ["", "plain [m text", _emitted("RED") + "x" + ESC + "[0m", _emitted(123, "g5", "TNNNT") + "ab" + ESC + "[0m tail",
+                     ESC + "[m", ESC + "[38;5;1mq"] + [rand_fragment_string(rng) for _ in range(6 if not thorough else 200)]:
+            text = "".join(c for c in text if not 0xD800 <= ord(c) <= 0xDFFF)
+            if entry == "plain-fmt":
+                text = text.replace(ESC, "?")
+            yield _case("first %s %s" % (entry, enc_str(text)), "first-use")
     # --- sizes: long reports (many coloured chunks in one string, many sequences through strip_colors)
     pool = [spec_tokens("RED"), spec_tokens(None, 123, "TNNNN"), spec_tokens((1, 2, 3), "g5"), spec_tokens("BLUE", None, "NNNNT")]
     for n in (1, 2, 127, 128, 129, 130, 200, 257, 1000) + ((2000, 3000) if thorough else ()):
         parts = " ".join("%s %s" % (pool[i % len(pool)], enc_str("c%d" % i if i % 7 else "[m;1")) for i in range(n))
         yield _case("cht %d %s" % (n, parts), "size-cht")
+        if n <= 257:
+            yield _case("make %d %s" % (n, " ".join("%s %s" % (pool[(i // 3) % len(pool)], enc_str("k%d" % i)) for i in range(n))),
+                        "size-make")
         two = [pool[0], pool[3]]
         yield _case("hist 2 %s %s %s r %s r" % (two[0], two[1],
                                                " ".join("a:%d:%s" % (1 + i % 2, enc_str("r%d " % i)) for i in range(n)),
@@ -1646,7 +1723,7 @@ def shrink(case):
                 yield mk(a[:4] + [t])
         elif a[4] != "-":
             yield mk(a[:4] + ["-"])
-    elif op == "cht":
+    elif op in ("cht", "make"):
         n = int(a[0])
         parts = [a[1 + 5 * i: 6 + 5 * i] for i in range(n)]
         for i in range(n):
@@ -1734,6 +1811,9 @@ def shrink(case):
             sp = head[1 + 4 * i: 5 + 4 * i]
             if sp[2] != "NNNNN":
                 yield mk(head[:1 + 4 * i] + sp[:2] + ["NNNNN", sp[3]] + head[5 + 4 * i:] + prog)
+    elif op == "first":
+        for t in _shorter(a[1]):
+            yield mk([a[0], t])
     elif op in ("strip", "term", "pfmt"):
         for t in _shorter(a[0]):
             yield mk([t])
@@ -1744,8 +1824,10 @@ def nontrivial(case, replies):
     a = split_data(a)[0]
     if op in ("fmt", "bytes"):
         return a[:3] != ["N", "N", "NNNNN"]
-    if op == "cht":
+    if op in ("cht", "make"):
         return int(a[0]) >= 2
+    if op == "first":
+        return True
     if op == "pfmt":
         return a[0] != "-"
     if op == "seq":
